@@ -348,7 +348,7 @@ _Bool verif_cycle, verif_split_threw; void *verif_split_result;
 double nondet_double(void);
 _Bool w_isActivePath(void *blk, void *u, void *v) { return verif_cycle; }
 void *w_splitBetween(void *blk, void *vl, void *vr, void **lb, void **rb) { return verif_split_result; }
-void *w_block_merge(void *blk, void *other, void *c) { return blk; }
+void *w_block_merge(void *blk, void *other, void *c) { ((struct Constraint *)c)->active = 1; return blk; }   /* assumed: merging across c makes c active (Block::merge sets c->active) */
 void w_blocks_insert(void *bs, void *b) { }
 void w_delete_block(void *b) { }
 double w_slack(void *c) { return nondet_double(); }
@@ -366,6 +366,10 @@ void h_merge_body(void)
     w_merge_body(&sol, &v);
     __CPROVER_assert(!v.unsatisfiable || v0.unsatisfiable || (same_block && (verif_cycle || !has_split || verif_split_threw)),
                      "SPEC IncSolver::satisfy relaxes (flags) a constraint only on evidence: an active directed path right->left in its block, or splitBetween finding nothing to split / reporting unsatisfiability");
+    _Bool requeued = 0;
+    for (size_t k = 0; k < 8; ++k) if (k < sol.inactive.n && slots[k] == (void *)&v) requeued = 1;
+    __CPROVER_assert(v.active || v.unsatisfiable || requeued,
+                     "SPEC the constraint picked from the work list is not dropped: after the iteration it is active, or flagged unsatisfiable, or back on the work list");
     __CPROVER_assert(FEQ(v.gap, v0.gap) && v.left == v0.left && v.right == v0.right && v.equality == v0.equality,
                      "SPEC IncSolver::satisfy's loop body leaves the constraint's definition alone");
     VERIF_CANARY;
